@@ -172,6 +172,7 @@ class Check:
             "exhaustive": bool(self.exhaustive),
             "checker_cmd": (self.checker_cmds[0] if self.checker_cmds else "") + (" ; ... (%d TLC invocations in all, see tlc_runs)" % len(self.checker_cmds) if len(self.checker_cmds) > 1 else ""),
             "tlc_runs": self.tlc_runs,
+            "tlc_tool_retries": __import__("harness.tlc", fromlist=["TOOL_RETRIES"]).TOOL_RETRIES,
             "known_findings_reproduced": self.known_hits,
             "notes": self.notes,
         }
